@@ -96,6 +96,9 @@ pub struct State {
 
     /// Current anonymous scope index
     anonymous_scope_index: usize,
+
+    /// How deeply are the blocks nested that are currently being parsed?
+    pub block_depth: usize,
 }
 
 impl State {
@@ -109,6 +112,7 @@ impl State {
             errors: Diagnostics::default(),
             ignore_next_error: false,
             anonymous_scope_index: 0,
+            block_depth: 0,
         }
     }
 
